@@ -95,7 +95,7 @@ func (ex *Exec) hasAfterAnchor(s ast.Stmt) bool {
 		if txt == "" {
 			txt = normSpace(ex.nodeSrc(s))
 		}
-		if txt == normSpace(h.Target) {
+		if txt == normSpace(h.Target) || ex.isLoopAnchor(s, h.Target) {
 			return true
 		}
 	}
@@ -115,13 +115,26 @@ func (ex *Exec) runAnchors(st *State, s ast.Stmt, kind string) {
 		if txt == "" {
 			txt = ex.nodeSrc(s)
 		}
-		if normSpace(txt) == normSpace(h.Target) {
+		if normSpace(txt) == normSpace(h.Target) || ex.isLoopAnchor(s, h.Target) {
 			ex.anchorHit[h] = true
 			ex.hookDepth++
 			ex.runGhost(st, h.Body, ex.U, fmt.Sprintf("%s:%d %s %q", h.File, h.Line, kind, h.Target), h.Props)
 			ex.hookDepth--
 		}
 	}
+}
+
+// isLoopAnchor: `before|after "loop 1.2"` names a loop statement by its ordinal.
+func (ex *Exec) isLoopAnchor(s ast.Stmt, target string) bool {
+	t := normSpace(target)
+	if !strings.HasPrefix(t, "loop ") {
+		return false
+	}
+	switch s.(type) {
+	case *ast.ForStmt, *ast.RangeStmt:
+		return ex.loopPathOf(s) == strings.TrimSpace(strings.TrimPrefix(t, "loop "))
+	}
+	return false
 }
 
 func normSpace(s string) string { return strings.Join(strings.Fields(s), " ") }
